@@ -132,6 +132,21 @@ class Model:
 
     def contents(self, rel):
         if rel in self.inputs:
+            if rel in self.w.meta.get("eqrel_inputs", ()):
+                # eqrel storage: the reflexive, symmetric and transitive closure of the inserted pairs
+                parent = {}
+
+                def find(x):
+                    while parent.setdefault(x, x) != x:
+                        parent[x] = parent[parent[x]]
+                        x = parent[x]
+                    return x
+                for a, b in self.inputs[rel]:
+                    parent[find(a)] = find(b)
+                cls = {}
+                for x in list(parent):
+                    cls.setdefault(find(x), []).append(x)
+                return set("%s\t%s" % (a, b) for members in cls.values() for a in members for b in members)
             return set("\t".join(t) for t in self.inputs[rel])
         if not self.known:
             return None
